@@ -1,5 +1,6 @@
 """Python mirror of RevAbs/TraceRev, used only to NAME the failing clause of a trace TLC did not accept.
-If this mirror accepts a trace that TLC rejected (or vice versa) the check stops with exit 2."""
+TLC is the judge (vlib.reconcile): a trace TLC rejects is a violation even if this mirror cannot name the clause; a trace TLC accepts
+but this mirror rejects is a machinery failure (exit 2)."""
 
 
 def weight(k, j, kd):
